@@ -32,8 +32,9 @@ import mir_eval.chord as chord
 from core import Case
 
 PID = "C10"
-LEAN_MODULES = ["MirProofs.Props.C10", "MirProofs.Props.C10_Regex"]
-TRANSLATOR_PARTS = ["tables", "regex"]
+LEAN_MODULES = ["MirProofs.Props.C10", "MirProofs.Props.C10_Regex", "MirProofs.Props.C10_Gen"]
+# C10_Gen: pitch_class_to_semitone / scale_degree_to_semitone REGENERATED from the source = the hand-written models
+TRANSLATOR_PARTS = ["tables", "regex", "scalars_chord"]
 RULE = ("re_match: the label streams below + every string of length <= 3 (quick) / 4 (thorough) over 19 characters + "
         "labels with newline / NUL / CR / U+0085 / U+2028 / non-ASCII look-alikes appended, prepended or embedded + accidental "
         "runs of 50..4000 characters (pure, mixed, wrongly terminated) + degree lists of up to 60 items (valid) and up to 5 "
@@ -705,7 +706,24 @@ def suite_primitives(rng, tier, shard, nshards):
                    tag="reduce_extended_quality", info=info, post=_post_redux)
 
 
-SUITES = {"re_match": suite_re_match, "rx": suite_rx, "accept": suite_accept, "encode": suite_encode, "join": suite_join, "primitives": suite_primitives}
+def suite_gen_primitives(rng, tier, shard, nshards):
+    """the two scalar helpers as REGENERATED from the source (driver op `gen.scalar`, lean/MirGen/Scalars.lean) vs the
+    real functions; ASCII strings only (model domain of the generated string primitives)"""
+    fixed = sorted(set(DEGREES + ROOTS + list(chord.SCALE_DEGREES.keys()) + list(chord.PITCH_CLASSES.keys())
+                       + ["", "#", "b", "##", "bb", "#b", "b#", "H", "H#", "Hb", "C#b#", "Cx", "b#5", "#b5", "5#", "5b",
+                          "b", "bb7b", "#1#", "13", "b13", "##13", "14", "0"]))
+    n = 2000 if tier == "thorough" else 200
+    strings = fixed[shard::nshards] + [x for x in (_arb_string(rng) for _ in range(n)) if x.isascii()]
+    for s in strings:
+        info = {"string": s}
+        yield Case("gen.scalar", ["chord.pitch_class_to_semitone", s], lambda s=s: chord.pitch_class_to_semitone(s),
+                   tag="gen pitch_class_to_semitone", info=info)
+        yield Case("gen.scalar", ["chord.scale_degree_to_semitone", s], lambda s=s: chord.scale_degree_to_semitone(s),
+                   tag="gen scale_degree_to_semitone", info=info)
+
+
+SUITES = {"re_match": suite_re_match, "rx": suite_rx, "accept": suite_accept, "encode": suite_encode, "join": suite_join, "primitives": suite_primitives,
+          "gen_scalar.primitives": suite_gen_primitives}
 
 
 # ------------------------------------------------------------------------------------------------
